@@ -716,6 +716,8 @@ class SimFS:
             on = self.inodes[old]
             if on.kind == "d" and self.inodes[ino].kind != "d":
                 raise oserr(errno.EISDIR, s, d)
+            if on.kind != "d" and self.inodes[ino].kind == "d":
+                raise oserr(errno.ENOTDIR, s, d)
             if on.kind == "d" and on.entries:
                 raise oserr(errno.ENOTEMPTY, s, d)
             on.nlink -= 1
